@@ -748,6 +748,7 @@ def subdivision_unconditional(ctx, repo: Repo, pid: str):
     m = repo.module(PO)
     n_sites = 0
     bad = []
+    repeat_bad = []
     for ci in m.classes.values():
         fi = ci.methods.get("divide_edges")
         if fi is None:
@@ -755,6 +756,23 @@ def subdivision_unconditional(ctx, repo: Repo, pid: str):
         ctx.analysed(fi)
         required = ["_add_mid_edge_nodes", "_end_of_divison"] if ci.name == "Polytope" else ["super().divide_edges"]
         body = [s_ for s_ in fi.node.body if not (isinstance(s_, ast.Expr) and isinstance(s_.value, ast.Constant))]
+        # a repeat count:  def divide_edges(self, n_times=1): for _ in range(n_times): <one subdivision>   - the loop body is the unit
+        params_ = [a.arg for a in fi.node.args.args][1:]
+        if len(body) == 1 and isinstance(body[0], ast.For) and not body[0].orelse and isinstance(body[0].iter, ast.Call) and \
+                src(body[0].iter.func) == "range" and len(body[0].iter.args) == 1 and isinstance(body[0].iter.args[0], ast.Name) and \
+                body[0].iter.args[0].id in params_:
+            body = list(body[0].body)
+        # sibling agreement on the repeat count: an override that hands its count on to super().divide_edges(n) lets the base class do all
+        # n subdivisions in one go - every step of its own then runs once per REQUEST instead of once per subdivision
+        for s_ in body:
+            if isinstance(s_, ast.Expr) and isinstance(s_.value, ast.Call) and src(s_.value.func) == "super().divide_edges" and \
+                    (s_.value.args or s_.value.keywords):
+                fwd = [a_ for a_ in list(s_.value.args) + [k_.value for k_ in s_.value.keywords] if isinstance(a_, ast.Name) and a_.id in params_]
+                own = [x_ for x_ in body if x_ is not s_ and any(isinstance(c_, ast.Call) and isinstance(c_.func, ast.Attribute) and
+                                                                 isinstance(c_.func.value, ast.Name) and c_.func.value.id == "self"
+                                                                 for c_ in ast.walk(x_))]
+                if fwd and own:
+                    repeat_bad.append((fi, fwd[0].id, own[0]))
         top_calls = {}
         for k_, s_ in enumerate(body):
             if isinstance(s_, ast.Expr) and isinstance(s_.value, ast.Call):
@@ -786,6 +804,12 @@ def subdivision_unconditional(ctx, repo: Repo, pid: str):
         ctx.violate("DOM", f"{pid}.subdivide.always", f"{fi.qualname}: `{r_}()` is not executed on every call of divide_edges ({why}): a "
                     "subdivision request can be silently ignored, the polytope then holds the lattice of the previous level while callers count "
                     "on the next one", fi.where, norm_stmt(getattr(node, "_parent", node))[:160] if node is not None else "", witness=why)
+    for fi, prm, own in repeat_bad:
+        ctx.instance("DOM")
+        ctx.violate("DOM", f"{pid}.subdivide.repeat", f"{fi.qualname} hands its repeat count `{prm}` on to super().divide_edges(), which performs all "
+                    "the subdivisions in one call, while its own step (the extra edges that make the next subdivision put points on them) runs "
+                    "once per request: from the second subdivision of a multi-step request on those edges are missing and the lattice lacks "
+                    "points", fi.where, norm_stmt(own)[:140], witness=f"own step outside a loop over range({prm})")
     if not bad:
         ctx.ok("DOM", f"{pid}.subdivide.always", f"every divide_edges implementation ({n_sites} required steps) performs its subdivision "
                "unconditionally", m.relpath)
